@@ -5,7 +5,10 @@
     proper AML names (lead char / name chars, fewer than 64 segments), constants fit their width, strings are ASCII,
     opcodes are opcodes of the parser's table with the right number of arguments, every Scope directive and every
     method call resolves under the ACPI rules (tables may refer to objects of earlier tables), every call passes
-    exactly the declared number of arguments, predicates / operands are expressions. *)
+    exactly the declared number of arguments, predicates / operands are expressions, and an operand in a Target / SuperName /
+    SimpleName position of an operator is not the constant Zero: the byte 00 in such a position IS the NullName (spelled
+    [ANull] in the AST, dropped from the namespace by [ns] and by the view) - [AConst Zero] there would be a second spelling
+    of the same bytes that [ns] counts as an argument. *)
 From Coq Require Import NArith List Bool.
 From FF Require Import Lib.Word Gen.Consts_device_acpi_aml Aml.Stream Aml.Lex Aml.Tree Aml.Parser Aml.Grammar Aml.View.
 Import ListNotations.
@@ -35,6 +38,22 @@ Definition op_arity (op : N) : option N :=
   | Some i => if i =? aml_badOpcode then None else
               match opInfo i with Some (_, _, af) => Some (lenN (argTypes_go 8 0 af)) | None => None end
   | None => None
+  end.
+
+(** the argument types of an opcode (all args but PkgLen), for the positions that hold a Target *)
+Definition op_argtypes (op : N) : list N :=
+  match opcodeTableIndex op false with
+  | Some i => match opInfo i with Some (_, _, af) => argTypes_go 8 0 af | None => [] end
+  | None => []
+  end.
+Definition is_target_ty (ty : N) : bool :=
+  (ty =? aml_pArgTypeTarget) || (ty =? aml_pArgTypeSuperName) || (ty =? aml_pArgTypeSimpleName).
+Definition is_zero_const (a : ast) : bool := match a with AConst op _ => op =? aml_pOpZero | _ => false end.
+(** no constant Zero where the grammar has a Target / SuperName / SimpleName (the null target is [ANull]) *)
+Fixpoint targets_ok (types : list N) (args : list ast) : bool :=
+  match types, args with
+  | ty :: tr, a :: ar => negb (is_target_ty ty && is_zero_const a) && targets_ok tr ar
+  | _, _ => true
   end.
 
 Definition felem_ok (e : felem) : bool :=
@@ -90,7 +109,7 @@ Fixpoint wf_ast (scope : path) (a : ast) : bool :=
   | AStr b => ascii_ok b
   | ABuffer k size bytes => is_expr size && wf_ast scope size && bytes_ok bytes && k_ok k (lenN (encode size) + lenN bytes)
   | APackage k n elems => (n <? 256) && allexpr elems && k_ok k (1 + sumlen elems)
-  | AOp op args => match op_arity op with Some n => (n =? lenN args) | None => false end && allexpr args
+  | AOp op args => match op_arity op with Some n => (n =? lenN args) | None => false end && targets_ok (op_argtypes op) args && allexpr args
   | ANull => true
   | ARef nm => name_ok nm
   | ACall nm args =>
